@@ -314,14 +314,19 @@ func vh_idempotent_flag() {
 
 var vRealSends int
 
+var vRealErr error
+
 func vstubConnExecuteQuery(c *Conn, ctx context.Context, q *Query) *Iter {
 	vRealSends++
-	return &Iter{err: vErrServer}
+	return &Iter{err: vRealErr}
 }
 func vstubConnExecuteBatch(c *Conn, ctx context.Context, b *Batch) *Iter {
 	vRealSends++
-	return &Iter{err: vErrServer}
+	return &Iter{err: vRealErr}
 }
+
+// the backoff duration (math.Pow, random jitter) is irrelevant to the attempt budget
+func vstubNapTime(e *ExponentialBackoffRetryPolicy, attempts int) time.Duration { return 0 }
 func vstubGetPoolAlways(p *policyConnPool, host *HostInfo) (*hostConnPool, bool) {
 	return &hostConnPool{host: host}, true
 }
@@ -334,6 +339,7 @@ func (o *vObs) ObserveBatch(ctx context.Context, b ObservedBatch) { o.n++ }
 
 func vh_real_types_attempts() {
 	nh := vBound("hosts")
+	vRealErr = vErrServer
 	sel := make([]*vSelHost, nh)
 	for i := range sel {
 		sel[i] = &vSelHost{h: &HostInfo{hostId: string(rune('a' + i)), connectAddress: vAddrs[i%len(vAddrs)], state: NodeUp}}
@@ -347,7 +353,17 @@ func vh_real_types_attempts() {
 		return sel[offered-1]
 	}
 	n := vChoose("num_retries", 3)
-	rt := &SimpleRetryPolicy{NumRetries: n}
+	var rt RetryPolicy = &SimpleRetryPolicy{NumRetries: n}
+	sameHost := false
+	switch vChoose("policy", 3) {
+	case 1:
+		rt = &ExponentialBackoffRetryPolicy{NumRetries: n}
+	case 2:
+		// one retry per consistency level to try; an UNAVAILABLE with live replicas is retried on the same host
+		rt = &DowngradingConsistencyRetryPolicy{ConsistencyLevelsToTry: []Consistency{Two, One}[:n]}
+		vRealErr = &RequestErrUnavailable{Alive: 1}
+		sameHost = true
+	}
 	withObserver := vBool("with_observer")
 	obs := &vObs{}
 	var qry ExecutableQuery
@@ -371,7 +387,7 @@ func vh_real_types_attempts() {
 	iter := ex.do(context.Background(), qry, hostIter)
 	vAssert(iter != nil && iter.err != nil, "C13/real/all-attempts-failed-is-an-error")
 	want := n + 1
-	if nh < want {
+	if nh < want && !sameHost {
 		want = nh
 	}
 	vAssert(vRealSends == want, "C13/real/simple-policy-bounds-the-sends-of-queries-and-batches")
